@@ -28,6 +28,8 @@ def run(model, rep, tier):
     # nothing in that phase may fail (shared with C07.R11)
     from . import c07
     c07.r11_nothing_printed_after_the_report(ctx, rep, 'C17.R9')
+    from . import robust
+    robust.asserts_have_no_effects(ctx, rep, 'C17.R20', 'C17')
     rep.units['cfg'] = ctx.cfg_stats
 
 
